@@ -11,7 +11,8 @@ INFO = {
             "by exactly n; (b) every class that takes a context parameter x every way of referring to the key (this.k, lambda ctx: ctx.k, "
             "this._.k, this._params.k, sibling, two levels up, _root) x every embedding (top level, Struct member, nested Struct, Array, "
             "Prefixed, IfThenElse, Switch, Aligned, Renamed) x contexts that supply each alphabet value or omit the key. "
-            "non-trivial = sizeof answered and the stream advance of build and parse was measured; distinct = (term, kw, value)",
+            "(c) classes with user-given amounts (Transformed with every pair of decode/encode amounts over {None,1..4}, Restreamed) and the adapter "
+            "classes: exception class and measured advance. non-trivial = sizeof answered and the stream advance of build and parse was measured; distinct = (term, kw, value)",
     "bounds": {"quick": {"ctx_values": [0, 1, 2, 3]}, "thorough": {"ctx_values": [0, 1, 2, 3, 5, 255, 256], "values": "every value read from every n-byte string over S6 (n<=4), {00,01,ff} (n<=6), {00,ff} (n<=8)"}},
     "trusted_base": ["mc/ref.py sizeof (cross-check only; the verdict is the measured stream advance and the exception class)"],
     "assumptions": ["exempt by the property: read-to-EOF transforms outside a delimiter are measured with an empty trailer only; "
@@ -36,6 +37,7 @@ def units(tier):
     from .. import scale
     for n in scale.sizes(tier):
         us.append({"kind": "scale", "size": n})
+    us.append({"kind": "direct"})
     return us
 
 
@@ -217,6 +219,96 @@ def run_terms(unit, tier, r):
         r.sample({"term": T.show(t), "tier": tn}, cap=2)
 
 
+# ------------------------------------------------------------------------------ classes outside the term language
+
+def direct_cases():
+    """(name, factory, build values): classes whose parameters are amounts / functions given directly by the user.
+    Transformed and Restreamed with every combination of amounts (absent, equal, different), and the adapter classes of C01."""
+    import construct as C
+    out = []
+    fit = lambda k: (lambda b: (bytes(b) + bytes(8))[:k])
+    amounts = (None, 1, 2, 3, 4)
+    for da in amounts:
+        for ea in amounts:
+            for k in (0, 2):
+                enc = fit(ea) if ea is not None else (lambda b: b)
+                out.append(("Transformed(Bytes(%d), fit, %r, fit, %r)" % (k, da, ea),
+                            (lambda k=k, da=da, ea=ea, enc=enc: C.Transformed(C.Bytes(k), fit(k), da, enc, ea)), [bytes([7]) * k, bytes([255]) * k]))
+            out.append(("Struct(Byte, Transformed(Byte, fit, %r, fit, %r), Byte)" % (da, ea),
+                        (lambda da=da, ea=ea: C.Struct("a" / C.Byte, "t" / C.Transformed(C.Byte, fit(1), da, fit(ea) if ea is not None else (lambda b: b), ea), "z" / C.Byte)),
+                        [dict(a=1, t=2, z=3)]))
+            out.append(("Array(2, Transformed(Byte, fit, %r, fit, %r))" % (da, ea),
+                        (lambda da=da, ea=ea: C.Array(2, C.Transformed(C.Byte, fit(1), da, fit(ea) if ea is not None else (lambda b: b), ea))), [[1, 2]]))
+    from construct.lib import bytes2bits, bits2bytes
+    for k in (1, 2, 3):
+        # the size computer is the user's statement about the two functions; only correct ones are in scope
+        out.append(("Restreamed(Bytes(%d), bytes2bits, 1, bits2bytes, 8, n//8)" % (8 * k,),
+                    (lambda k=k: C.Restreamed(C.Bytes(8 * k), bytes2bits, 1, bits2bytes, 8, lambda n: n // 8)), [bytes([1, 0] * (4 * k))]))
+        out.append(("Restreamed(Bytes(%d), bits2bytes, 8, bytes2bits, 1, n*8)" % (k,),
+                    (lambda k=k: C.Restreamed(C.Bytes(k), bits2bytes, 8, bytes2bits, 1, lambda n: n * 8)), [bytes([0x81]) * k]))
+    from .c01 import adapter_cases
+    for name, mk, vals in adapter_cases():
+        out.append((name, mk, [vin for vin, _ in vals]))
+    return out
+
+
+def run_direct(r):
+    """no reference here: the verdict is the exception class and the measured stream advance of the real build and parse"""
+    for name, mk, vals in direct_cases():
+        d = mk()
+        r.states += 1
+        g = rt.sizeof(d, {})
+        case = {"direct": name}
+        if g[0] in ("foreign", "cerr"):
+            r.violation("C05/sizeof-raises-%s/direct" % g[1], case, "%s.sizeof() raised %s; only SizeofError is allowed" % (name, g[1]))
+            continue
+        if g[0] == "sizeof-error":
+            r.case(nontrivial=False, outcome="SizeofError")
+            continue
+        n = g[1]
+        if isinstance(n, bool) or not isinstance(n, int) or n < 0:
+            r.violation("C05/sizeof-not-a-size/direct", case, "%s.sizeof() returned %r" % (name, n))
+            continue
+        tried = 0
+        for v in vals:
+            for start in (0, 3):
+                s = io.BytesIO()
+                s.write(bytes(start))
+                try:
+                    with watchdog(3):
+                        d.build_stream(v, s)
+                except Hang:
+                    r.violation("C05/build-hang/direct", case, "%s: build did not terminate" % name)
+                    continue
+                except Exception:
+                    continue
+                adv = s.tell() - start
+                tried += 1
+                if adv != n:
+                    r.violation("C05/build-advance-differs/direct", dict(case, value=srepr(v)),
+                                "%s.sizeof() = %d but build(%s) at offset %d advanced the stream by %d" % (name, n, srepr(v), start, adv))
+                    continue
+                built = s.getvalue()[start:]
+                for trail in TRAILERS:
+                    s2 = io.BytesIO(bytes(start) + built + trail)
+                    s2.seek(start)
+                    try:
+                        with watchdog(3):
+                            d.parse_stream(s2)
+                    except Hang:
+                        r.violation("C05/parse-hang/direct", case, "%s: parse did not terminate" % name)
+                        continue
+                    except Exception:
+                        continue
+                    adv2 = s2.tell() - start
+                    if adv2 != n:
+                        r.violation("C05/parse-advance-differs/direct", dict(case, value=srepr(v), trail=trail.hex()),
+                                    "%s.sizeof() = %d but parsing its own encoding %s followed by %s advanced the stream by %d"
+                                    % (name, n, built.hex(), trail.hex(), adv2))
+        r.case(nontrivial=tried > 0, outcome="measured" if tried else "sized-no-buildable-value", transitions=1 + 4 * tried, validated=1)
+    r.sample({"direct_cases": len(direct_cases())})
+
+
 # ------------------------------------------------------------------------------ part (b)
 
 def slots():
@@ -367,6 +459,9 @@ def run_unit(unit, tier):
                 r.violation(x["sig"], x["case"], x["detail"][:500])
         r.sample({"scale_size": n})
         return r
+    if unit["kind"] == "direct":
+        run_direct(r)
+        return r
     if unit["kind"] == "terms":
         run_terms(unit, tier, r)
     else:
@@ -375,6 +470,10 @@ def run_unit(unit, tier):
 
 
 def replay(case):
+    if "direct" in case:
+        r = UnitResult()
+        run_direct(r)
+        return [v for v in r.violations if v["case"].get("direct") == case["direct"]]
     t = case["term"]
     kw = case.get("kw") or {}
     d = T.mk(t)
